@@ -122,6 +122,10 @@ pub fn replay(args: &[String]) {
 	for (v, exp) in specials {
 		out.cmp("Action:from_f64:special", || json!({"v": format!("{v:e}")}), &json!(exp), &json!(catch(|| code(Action::from(v))).unwrap_or(9999)));
 		out.cmp("Action:from_f32:special", || json!({"v": format!("{v:e}")}), &json!(exp), &json!(catch(|| code(Action::from(v as f32))).unwrap_or(9999)));
+		// the Option / reference forms go through the same conversion
+		out.cmp("Action:from_opt_f64:special", || json!({"v": format!("{v:e}")}), &json!(exp), &json!(catch(|| code(Action::from(Some(v)))).unwrap_or(9999)));
+		out.cmp("Action:from_opt_f32:special", || json!({"v": format!("{v:e}")}), &json!(exp), &json!(catch(|| code(Action::from(Some(v as f32)))).unwrap_or(9999)));
+		out.cmp("Action:from_ref_f64:special", || json!({"v": format!("{v:e}")}), &json!(exp), &json!(catch(|| code(Action::from(&v))).unwrap_or(9999)));
 		out.cmp("Action:from_valuetype:special", || json!({"v": format!("{v:e}")}), &json!(exp), &json!(catch(|| code(Action::from(v as yata::core::ValueType))).unwrap_or(9999)));
 	}
 	out.summary(json!({"rows": rows.len()}));
